@@ -82,7 +82,6 @@ namespace verif::e2 {
         case 'q': return true;                                          // q.*
         case 'b': return s[1] == 'o';                                   // body.*
         case 'x': return true;                                          // x.* harness notes
-        case 'g': return s[1] == 'a';                                   // gac.* global activity count
         default: return false;
         }
     }
